@@ -665,7 +665,7 @@ func existsFns(repo string) {
 		fmt.Fprintln(os.Stderr, "lock2coq:", err)
 		os.Exit(1)
 	}
-	var ex, cde *ast.FuncDecl
+	var ex, cde, rm *ast.FuncDecl
 	for _, d := range f.Decls {
 		if x, ok := d.(*ast.FuncDecl); ok && x.Body != nil && x.Recv != nil {
 			switch x.Name.Name {
@@ -673,6 +673,8 @@ func existsFns(repo string) {
 				ex = x
 			case "checkDirExists":
 				cde = x
+			case "removeWithExclusionPatterns":
+				rm = x
 			}
 		}
 	}
@@ -714,6 +716,34 @@ func existsFns(repo string) {
 	nstmts("checkDirExists", c, len(exp))
 	for i, e := range exp {
 		want(c[i], src(c[i]), e, fmt.Sprintf("checkDirExists[%d]", i))
+	}
+	// removal (Rm of the lock directory and of the heartbeat file): the symbolic-link test at its head
+	if rm == nil {
+		fmt.Fprintln(os.Stderr, "lock2coq: VFS.removeWithExclusionPatterns not found")
+		os.Exit(1)
+	}
+	found := false
+	for i, st := range rm.Body.List {
+		t := src(st)
+		switch {
+		case t == "info, lErr := fs.Lstat(dir)":
+			if i+1 >= len(rm.Body.List) {
+				die(st, "removeWithExclusionPatterns: statement after the Lstat missing")
+			}
+			nx := src(rm.Body.List[i+1])
+			if nx == "if lErr != nil && !IsPathNotExist(lErr) && !commonerrors.Any(lErr, commonerrors.ErrNotFound, commonerrors.ErrNotImplemented) { err = lErr return }" {
+				F.set("rm_lstat_failure_fails", "true")
+			} else {
+				die(rm.Body.List[i+1], "removeWithExclusionPatterns: handling of a failed Lstat: %s", nx)
+			}
+			found = true
+		case strings.HasPrefix(t, "if info, subErr := fs.Lstat(dir); subErr == nil && IsSymLink(info) {"):
+			F.set("rm_lstat_failure_fails", "false") // a failed Lstat is read as "not a link" and the removal goes on
+			found = true
+		}
+	}
+	if !found {
+		die(rm, "removeWithExclusionPatterns: the Lstat of the symbolic-link test not found")
 	}
 	F.set("ex_open_error_means_absent", "true")
 	F.set("ex_readdir_error_other_than_notexist_means_present", "true")
